@@ -883,3 +883,65 @@ def rule_lists_kept_whole(ctx, rep: Report, rid="G10", package="gtwrap/interface
                             f"{mi.rel}:{node.lineno}")
     if n < min_sites:
         raise AnalysisError(f"{rep.prop}/{rid}: only {n} list-copying sites found in the parser ({min_sites} expected)")
+
+
+def rule_ctor_params_stored(ctx, rep: Report, rid="G11", package="gtwrap/interface_parser", min_params=40):
+    """Every value handed to a parser node's constructor ends up on the node: each parameter (except the `parent`
+    back-link, which the owner sets) occurs in the value of an assignment to a `self.<attr>` on every path - an
+    unconditional assignment, or one in each branch of an if/else - or is at least consulted by a validation.  A
+    parameter that is stored only under a condition, or not at all, drops declared information from the tree."""
+    prog = ctx.prog
+    n = 0
+    for mi in sorted(prog.modules.values(), key=lambda m: m.rel):
+        if not mi.rel.startswith(package):
+            continue
+        for q, ci in sorted(mi.classes.items()):
+            init = ci.methods.get("__init__")
+            if init is None:
+                continue
+            params = [p for p in func_params(init)[1:] if p != "parent"]
+
+            def stores(stmts, p) -> bool:
+                """some self.<attr> = <value mentioning p> is executed on every path through stmts"""
+                for st in stmts:
+                    if isinstance(st, (ast.Assign, ast.AnnAssign)) and st.value is not None:
+                        tg = st.targets if isinstance(st, ast.Assign) else [st.target]
+                        if any(isinstance(t, ast.Attribute) and isinstance(t.value, ast.Name) and t.value.id == "self" for t in tg) and \
+                                any(isinstance(x, ast.Name) and x.id == p for x in ast.walk(st.value)):
+                            return True
+                    if isinstance(st, ast.If) and st.orelse and stores(st.body, p) and stores(st.orelse, p):
+                        return True
+                    # `if p: self.x = <from p> else: self.x = <default>`: the test is on p itself, the other branch gives the
+                    # attribute its empty value
+                    if isinstance(st, ast.If) and st.orelse and any(isinstance(x, ast.Name) and x.id == p for x in ast.walk(st.test)):
+                        def attrs(block):
+                            return {unparse(t) for y in block for z in ast.walk(y) if isinstance(z, (ast.Assign, ast.AnnAssign))
+                                    for t in (z.targets if isinstance(z, ast.Assign) else [z.target])
+                                    if isinstance(t, ast.Attribute) and isinstance(t.value, ast.Name) and t.value.id == "self"}
+                        for body, other in ((st.body, st.orelse), (st.orelse, st.body)):
+                            if stores(body, p) and attrs(body) & attrs(other):
+                                return True
+                    if isinstance(st, ast.Expr) and isinstance(st.value, ast.Call) and unparse(st.value.func).startswith("super(") and \
+                            any(isinstance(x, ast.Name) and x.id == p for x in ast.walk(st.value)):
+                        return True          # handed to the base class constructor
+                return False
+
+            def stored_in_branch_only(p) -> bool:
+                return any(isinstance(st, (ast.Assign, ast.AnnAssign)) and st.value is not None and
+                           any(isinstance(x, ast.Name) and x.id == p for x in ast.walk(st.value)) for st in walk_no_nested(init))
+            for p in params:
+                n += 1
+                ok = stores(init.body, p)
+                # a parameter that only feeds a loop which files its elements (Members) or a local that is stored
+                if not ok:
+                    loc_vars = {st.targets[0].id for st in walk_no_nested(init) if isinstance(st, ast.Assign) and len(st.targets) == 1
+                                and isinstance(st.targets[0], ast.Name) and any(isinstance(x, ast.Name) and x.id == p for x in ast.walk(st.value))}
+                    ok = any(stores(init.body, v) for v in loc_vars) or any(
+                        isinstance(l, ast.For) and any(isinstance(x, ast.Name) and x.id == p for x in ast.walk(l.iter))
+                        and any(isinstance(c, ast.Call) and isinstance(c.func, ast.Attribute) and c.func.attr == "append" for c in ast.walk(l))
+                        for l in walk_no_nested(init))
+                rep.add(rid, f"stored:{q}.__init__:{p}", ok,
+                        f"parameter `{p}` of {q} is {'stored only on some paths' if stored_in_branch_only(p) else 'never stored'}: what the grammar "
+                        f"captured for it (a base class, a flag, a list) is missing from the node", f"{mi.rel}:{init.lineno}")
+    if n < min_params:
+        raise AnalysisError(f"{rep.prop}/{rid}: only {n} constructor parameters of parser nodes found")
